@@ -27,7 +27,7 @@ func init() {
 
 	register(&Property{
 		ID: "C01", Title: "Subscribed resources converge to the state announced by the service",
-		Explanation: "Decides structural necessary conditions of convergence, on every path and for every schedule: (1) in the cache, content, version and the event's update flag change together, and an initial load stores content, version 0 and the loaded state only under the not-loaded test of that same entry (PAIR/version-bump); every event is stamped with the pre-update version, applied by its handler, fanned out inside the unlock window and dropped only by the listed discards (CONF/handle-event); (2) cache content and version are written only by cache tasks under the entry's mutex and read under it (CTX/guarded-by); (3) the subscriber applies an event only when it targets its version and advances by one per update (DOM/version-filter); (4) events are processed only with the event gate known open, discarded before load, and reaccess dispatched first (DOM/event-gate); (5) queues are updated in order-preserving forms (FIFO); (6) all mutable subscription state is touched on the connection worker only (CTX/conn); (7) a resource made sendable again must carry a current snapshot (PAIR/snapshot-current: known finding F13); cached model and collection values are never written in place: every container write in the repository is traced to its origin and none originates from Collection.Values / Model.Values (DOM/copy-on-write); a fanned-out ResourceEvent is read-only, no field of it — also one added later — is stored by subscriber-side code (WHO/event-immutable). Not decided: end-to-end equality of the client copy with the service state, Value.Equal, the reset diff (C12), the collector (C02), JSON encodings, legacy-encoding selection.",
+		Explanation: "Decides structural necessary conditions of convergence, on every path and for every schedule: (1) in the cache, content, version and the event's update flag change together, and an initial load stores content, version 0 and the loaded state only under the not-loaded test of that same entry (PAIR/version-bump); every event is stamped with the pre-update version, applied by its handler, fanned out inside the unlock window and dropped only by the listed discards (CONF/handle-event); (2) cache content and version are written only by cache tasks under the entry's mutex and read under it (CTX/guarded-by); (3) the subscriber applies an event only when it targets its version and advances by one per update (DOM/version-filter); (4) events are processed only with the event gate known open, discarded before load, and reaccess dispatched first (DOM/event-gate); (5) queues are updated in order-preserving forms (FIFO); (6) all mutable subscription state is touched on the connection worker only (CTX/conn); (7) a resource made sendable again must carry a current snapshot (PAIR/snapshot-current: known finding F13); cached model and collection values are never written in place: every container write in the repository is traced to its origin and none originates from Collection.Values / Model.Values (DOM/copy-on-write); a fanned-out ResourceEvent is read-only, no field of it — also one added later — is stored by subscriber-side code (WHO/event-immutable). Not decided: end-to-end equality of the client copy with the service state, Value.Equal, the reset diff (C12), the collector (C02), JSON encodings, legacy-encoding selection. Added after seeding round 7: an entry handed out for subscribing has its messaging-system event subscription on every path (PAIR/cache-count) — without it no event arrives and nothing converges; the cached encodings Model.data/Collection.data are read only by MarshalJSON (WHO/state readers).",
 		Assumptions: append([]string{"at most one cache worker runs a resource queue at a time (FIFO/CHAN rules) and one output worker per connection (CTX/conn)"}, baseAssumptions...),
 		Rules: []Rule{
 			{Name: "PAIR/cache-count", Min: 1, Run: rulePairCacheCount, Doc: "an entry handed out for subscribing has its event subscription (no events, no convergence)"},
@@ -58,7 +58,7 @@ func init() {
 
 	register(&Property{
 		ID: "C02", Title: "Every message is applicable: no dangling references or stray events",
-		Explanation: "Decides: the typestate table of Subscription.state (who may move a subscription into which state); populate → hand the frame over → release on every path (PAIR/rpc-resources); the shapes the collector relies on: ReleaseRPCResources marks sent, descends into every reference and then opens the loading gate; populateResources* count an edge once, skip sent resources and mark ToSend before descending; removeCount's counter effects follow its direct/sent/tryDelete arguments; every disposed subscription leaves the connection's table (DOM/ref-shapes); references are released with the parent's sent-ness as it was while the edge was counted (PROV/sent-flag: known finding F6); the sent-count is raised once per created edge (PAIR/edge-sent-once: known finding F8); a re-sendable resource has a current snapshot and a closed gate (PAIR/snapshot-current: known finding F13); no change on a collection, no add/remove on a model, decoded indexes inside [0,len] (DOM/index-kind-guard); no event before the hand-over (DOM/event-gate); recursion census. NOT decided — and this is the core of the property: correctness of the two-pass reference-count collector tryDelete/Unsend and of the indirectsent arithmetic on arbitrary reference graphs.",
+		Explanation: "Decides: the typestate table of Subscription.state (who may move a subscription into which state); populate → hand the frame over → release on every path (PAIR/rpc-resources); the shapes the collector relies on: ReleaseRPCResources marks sent, descends into every reference and then opens the loading gate; populateResources* count an edge once, skip sent resources and mark ToSend before descending; removeCount's counter effects follow its direct/sent/tryDelete arguments; every disposed subscription leaves the connection's table (DOM/ref-shapes); references are released with the parent's sent-ness as it was while the edge was counted (PROV/sent-flag: known finding F6); the sent-count is raised once per created edge (PAIR/edge-sent-once: known finding F8); a re-sendable resource has a current snapshot and a closed gate (PAIR/snapshot-current: known finding F13); no change on a collection, no add/remove on a model, decoded indexes inside [0,len] (DOM/index-kind-guard); no event before the hand-over (DOM/event-gate); recursion census. NOT decided — and this is the core of the property: correctness of the two-pass reference-count collector tryDelete/Unsend and of the indirectsent arithmetic on arbitrary reference graphs. Added after seeding round 7: the encoding cached for the latest protocol is read by MarshalJSON only, so a legacy connection is never handed bytes in the wrong dialect (WHO/encoding-cache).",
 		Assumptions: baseAssumptions,
 		Rules: []Rule{
 			{Name: "WHO/encoding-cache", Min: 2, Run: ruleWho([]whoEntry{
@@ -87,7 +87,7 @@ func init() {
 
 	register(&Property{
 		ID: "C03", Title: "Per-resource event delivery is ordered, gap-free and duplicate-free",
-		Explanation: "Decides: the five queues are updated only in order-preserving forms, including the re-queue of not-yet-processed events before newer ones (FIFO/queues); a worker is woken only on the empty→non-empty transition of a resource queue and never while locks are set (DOM/inch-send), so one worker at a time runs a queue; handleEvent stamps, applies and fans out inside one unlock window with no go statement (CONF/handle-event); Subscriber.Event only enqueues and the continuation of every handler runs on the connection worker (CTX/conn); an applied update advances cache and subscriber versions by exactly one and a stamped event is applied only at its version, hence at most once (PAIR/version-bump, DOM/version-filter); nothing is processed before the hand-over or while the gate is closed, with the in-loop re-test (DOM/event-gate); the bookkeeping of a callback slot (in-flight flag, cached verdict, the slot itself) is finished before the slot's continuations run, so a re-access started from inside a callback is not lost (DOM/drain-reentrancy). Not decided: the capacity countdown of the lock list, delivery by the socket, the 'equivalent derived sequence' exception (C12).",
+		Explanation: "Decides: the five queues are updated only in order-preserving forms, including the re-queue of not-yet-processed events before newer ones (FIFO/queues); a worker is woken only on the empty→non-empty transition of a resource queue and never while locks are set (DOM/inch-send), so one worker at a time runs a queue; handleEvent stamps, applies and fans out inside one unlock window with no go statement (CONF/handle-event); Subscriber.Event only enqueues and the continuation of every handler runs on the connection worker (CTX/conn); an applied update advances cache and subscriber versions by exactly one and a stamped event is applied only at its version, hence at most once (PAIR/version-bump, DOM/version-filter); nothing is processed before the hand-over or while the gate is closed, with the in-loop re-test (DOM/event-gate); the bookkeeping of a callback slot (in-flight flag, cached verdict, the slot itself) is finished before the slot's continuations run, so a re-access started from inside a callback is not lost (DOM/drain-reentrancy). Not decided: the capacity countdown of the lock list, delivery by the socket, the 'equivalent derived sequence' exception (C12). Added after seeding round 7: the held-back events of a frame's resources are let through only after the frame that first hands the resources over (PAIR/rpc-resources).",
 		Assumptions: baseAssumptions,
 		Rules: []Rule{
 			{Name: "PAIR/rpc-resources", Min: 2, Run: ruleRPCResources, Doc: "the resources of a frame are released (their held-back events let through) only after the frame that first hands them to the client"},
@@ -108,7 +108,7 @@ func init() {
 
 	register(&Property{
 		ID: "C04", Title: "Read access gating: no resource data without a valid get grant",
-		Explanation: "Decides: every data hand-out (GetRPCResources(false), a loaded subscription handed to the HTTP encoder) lies on a continuation path behind a get grant and not behind a direct-response meta status (DOM/gates); Access.CanGet grants only for no error ∧ get == true and tests the error first (TABLE/access); Cache.Access turns request and decode errors into Access.Error (LIN on its body); a denied request releases its direct subscription (PAIR/direct-count); the verdict is cached only for a result or system.accessDenied, by a live subscription (DOM/verdict-store) and cleared on every trigger before it can be reused (DOM/invalidate); the access request carries the token as the connection holds it when the request is sent (PROV/token-cid) and a reaccess event always reaches the subscribers (CONF/handle-event). Not decided: whether an access answer that was in flight when a trigger arrived is still valid (a runtime relation).",
+		Explanation: "Decides: every data hand-out (GetRPCResources(false), a loaded subscription handed to the HTTP encoder) lies on a continuation path behind a get grant and not behind a direct-response meta status (DOM/gates); Access.CanGet grants only for no error ∧ get == true and tests the error first (TABLE/access); Cache.Access turns request and decode errors into Access.Error (LIN on its body); a denied request releases its direct subscription (PAIR/direct-count); the verdict is cached only for a result or system.accessDenied, by a live subscription (DOM/verdict-store) and cleared on every trigger before it can be reused (DOM/invalidate); the access request carries the token as the connection holds it when the request is sent (PROV/token-cid) and a reaccess event always reaches the subscribers (CONF/handle-event). Not decided: whether an access answer that was in flight when a trigger arrived is still valid (a runtime relation). Added after seeding round 7: a direct subscription that is kept lies behind a get grant on every continuation (PAIR/direct-count).",
 		Assumptions: baseAssumptions,
 		Rules: []Rule{
 			{Name: "DOM/reset-protocol", Min: 1, Run: ruleResetProtocol, Doc: "a system reset with a matching access pattern reaches every subscriber, whatever the state of the resource"},
@@ -128,7 +128,7 @@ func init() {
 
 	register(&Property{
 		ID: "C05", Title: "Call gating and token currency",
-		Explanation: "Decides: both sites of Cache.Call lie behind a call grant on the same continuation path, for the very action value that was checked, and not behind a direct-response status (DOM/gates); CanCall grants only through call == \"*\" or an exact list entry, error first, never for an empty list (TABLE/access); at all 8 request sites the token argument is the connection's token read in the requesting task and the requester is that same connection; the payload builders use the requester's CID() and the given token (PROV/token-cid); token/tid are written only by setToken and every token change re-checks every subscription of the connection, unconditionally (DOM/token-fanout); the cached verdict is cleared on every trigger and before loadAccess can short-circuit on it (DOM/invalidate); the token is read on the connection worker only (CTX/conn: known finding F11 — the throttled re-access reads it on a fresh goroutine); a reaccess event always reaches the subscribers of the resource, also while it is being reset (CONF/handle-event). Not decided: the CanCall list scanner for all strings; validity of an access answer in flight at trigger time.",
+		Explanation: "Decides: both sites of Cache.Call lie behind a call grant on the same continuation path, for the very action value that was checked, and not behind a direct-response status (DOM/gates); CanCall grants only through call == \"*\" or an exact list entry, error first, never for an empty list (TABLE/access); at all 8 request sites the token argument is the connection's token read in the requesting task and the requester is that same connection; the payload builders use the requester's CID() and the given token (PROV/token-cid); token/tid are written only by setToken and every token change re-checks every subscription of the connection, unconditionally (DOM/token-fanout); the cached verdict is cleared on every trigger and before loadAccess can short-circuit on it (DOM/invalidate); the token is read on the connection worker only (CTX/conn: known finding F11 — the throttled re-access reads it on a fresh goroutine); a reaccess event always reaches the subscribers of the resource, also while it is being reset (CONF/handle-event). Not decided: the CanCall list scanner for all strings; validity of an access answer in flight at trigger time. Added after seeding round 7: a token event stores the new token before the subscriptions are re-accessed (DOM/token-fanout).",
 		Assumptions: baseAssumptions,
 		Rules: []Rule{
 			{Name: "DOM/reset-protocol", Min: 1, Run: ruleResetProtocol, Doc: "a system reset with a matching access pattern reaches every subscriber, whatever the state of the resource"},
@@ -164,7 +164,7 @@ func init() {
 
 	register(&Property{
 		ID: "C07", Title: "Exactly one response per client request",
-		Explanation: "Decides, for every path and schedule: rpc.HandleRequest performs exactly one Reply per dispatched request, directly or inside a handler continuation, and Reply is called from nowhere else (LIN/reply); every continuation parameter of the handlers and combinators is consumed exactly once on every full path — called, delegated to another linear function, or parked in a pending slot (LIN/continuations); pending callback slots are cleared only after draining, or when the connection itself goes away (LIN/drain: known finding F9 — Dispose drops ready callbacks on a live connection); an answered throttled request always frees its slot, so the access checks queued behind it — and the client requests waiting for them — are not stranded (PAIR/throttle-slot); continuations run on the connection worker (CTX/conn); every outcome of a get response collects the subscribers waiting on it (DOM/answer-waiting); slot bookkeeping is finished before continuations run (DOM/drain-reentrancy). Not decided: liveness (that a parked continuation is eventually run), the readyCallback.loading countdown arithmetic.",
+		Explanation: "Decides, for every path and schedule: rpc.HandleRequest performs exactly one Reply per dispatched request, directly or inside a handler continuation, and Reply is called from nowhere else (LIN/reply); every continuation parameter of the handlers and combinators is consumed exactly once on every full path — called, delegated to another linear function, or parked in a pending slot (LIN/continuations); pending callback slots are cleared only after draining, or when the connection itself goes away (LIN/drain: known finding F9 — Dispose drops ready callbacks on a live connection); an answered throttled request always frees its slot, so the access checks queued behind it — and the client requests waiting for them — are not stranded (PAIR/throttle-slot); continuations run on the connection worker (CTX/conn); every outcome of a get response collects the subscribers waiting on it (DOM/answer-waiting); slot bookkeeping is finished before continuations run (DOM/drain-reentrancy). Not decided: liveness (that a parked continuation is eventually run), the readyCallback.loading countdown arithmetic. Added after seeding round 7: a subscription gives its count on a ready callback back only after descending into its references, so the count cannot reach zero twice (PAIR/ready-count).",
 		Assumptions: append([]string{"mq.Client.SendRequest completes exactly once (C18)", "a continuation refused by wsConn.Enqueue because the connection is disposing is an accepted drop"}, baseAssumptions...),
 		Rules: []Rule{
 			{Name: "PAIR/ready-count", Min: 1, Run: ruleReadyCount, Doc: "a subscription gives its ready count back only after descending into its references (no double answer)"},
@@ -184,7 +184,7 @@ func init() {
 
 	register(&Property{
 		ID: "C08", Title: "Direct subscription accounting; failed requests leave nothing behind",
-		Explanation: "Decides: on every continuation path of every function that takes a direct subscription the count is released exactly once on every failure and on every outcome of get-type handlers, kept exactly on the success of subscribe-type handlers, and never released when Subscribe itself failed (PAIR/direct-count); an unsubscribe removes counts only behind the test direct >= count with the same count (DOM/unsub-precond); the count parameter is validated as positive (DOM/count-param); direct++ only below the limit (DOM/sub-limit); revocation and delete remove all direct subscriptions (DOM/revoke); direct is written by addCount/removeCount only; params that carry no count unsubscribe once: a decoded-params path reaches UnsubscribeResource with the default 1 (DOM/unsub-precond). Not decided: numeric equality of the counter with the response history (it is the sum of the per-path facts).",
+		Explanation: "Decides: on every continuation path of every function that takes a direct subscription the count is released exactly once on every failure and on every outcome of get-type handlers, kept exactly on the success of subscribe-type handlers, and never released when Subscribe itself failed (PAIR/direct-count); an unsubscribe removes counts only behind the test direct >= count with the same count (DOM/unsub-precond); the count parameter is validated as positive (DOM/count-param); direct++ only below the limit (DOM/sub-limit); revocation and delete remove all direct subscriptions (DOM/revoke); direct is written by addCount/removeCount only; params that carry no count unsubscribe once: a decoded-params path reaches UnsubscribeResource with the default 1 (DOM/unsub-precond). Not decided: numeric equality of the counter with the response history (it is the sum of the per-path facts). Added after seeding round 7: a connection registers a Subscription object under a resource id only on the not-found edge of the lookup of that id (DOM/one-sub-per-rid); the collector's mark pass keeps every node that is held or reached from a kept node (DOM/gc-mark).",
 		Assumptions: append([]string{"LIN (C07): every handler replies exactly once", "a task refused by a disposing connection needs no release (dispose releases everything)"}, baseAssumptions...),
 		Rules: []Rule{
 			{Name: "DOM/gc-mark", Min: 1, Run: ruleGCMark, Doc: "the collector marks a held node, or one reached from a kept node, kept — also over an earlier deletion mark: a subscription shared with a kept parent is not disposed"},
@@ -202,7 +202,7 @@ func init() {
 
 	register(&Property{
 		ID: "C09", Title: "Cache entry lifecycle: subscribed before fetch, kept while used, then freed",
-		Explanation: "Decides: getSubscription counts one use on every successful return and none on an error return, errors only when an mq subscription was requested, and with subscribe=true returns only after the entry's mq subscription exists (PAIR/cache-count); callers release the use or hand it to addSubscriber exactly once; a count is released iff a membership was removed and bulk releases equal the set dropped (PAIR/membership); a late or repeated Loaded owns or releases the resource exactly once (PAIR/loaded-handover); eviction re-checks the count under the locks, addCount cancels a pending eviction, removeCount queues the entry exactly at zero, gauges follow the count (DOM/evict); get requests are issued only from addSubscriber / reset (DOM/sub-before-get); a removed entry is cleared from every index it is findable through — base (also for the empty alias), queries, links (DOM/unregister). Not decided: the eviction delay and timers, gauges reading zero at a particular moment.",
+		Explanation: "Decides: getSubscription counts one use on every successful return and none on an error return, errors only when an mq subscription was requested, and with subscribe=true returns only after the entry's mq subscription exists (PAIR/cache-count); callers release the use or hand it to addSubscriber exactly once; a count is released iff a membership was removed and bulk releases equal the set dropped (PAIR/membership); a late or repeated Loaded owns or releases the resource exactly once (PAIR/loaded-handover); eviction re-checks the count under the locks, addCount cancels a pending eviction, removeCount queues the entry exactly at zero, gauges follow the count (DOM/evict); get requests are issued only from addSubscriber / reset (DOM/sub-before-get); a removed entry is cleared from every index it is findable through — base (also for the empty alias), queries, links (DOM/unregister). Not decided: the eviction delay and timers, gauges reading zero at a particular moment. Added after seeding round 7: the connection-side collector marks a held node, or one reached from a kept node, kept — also over an earlier deletion mark — so a shared subscription's cache use is not given back under a live client subscription (DOM/gc-mark).",
 		Assumptions: baseAssumptions,
 		Rules: []Rule{
 			{Name: "DOM/gc-mark", Min: 1, Run: ruleGCMark, Doc: "the collector marks a held node, or one reached from a kept node, kept — also over an earlier deletion mark: a subscription shared with a kept parent is not disposed"},
@@ -220,7 +220,7 @@ func init() {
 
 	register(&Property{
 		ID: "C10", Title: "Connection isolation: ids, tokens and events never cross connections",
-		Explanation: "Decides: every request site sends the requesting connection's own id and its current token (PROV/token-cid); no value derived from the connection id, the {cid}-expanded resource name/query or the cache's resource name reaches a client-facing sink — event names, resource-set keys, resource-response rids, hrefs (PROV/cid-taint, backward provenance over the whole program); ExpandCID is called on the service-facing side only and expands every tag; token resets re-authenticate only connections whose own tid is listed; events are fanned out to the subscriber set of the resource being handled (DOM/fanout-set); no subscriber-side store into the shared ResourceEvent, whatever the field (WHO/event-immutable). Not decided: what services put into payloads.",
+		Explanation: "Decides: every request site sends the requesting connection's own id and its current token (PROV/token-cid); no value derived from the connection id, the {cid}-expanded resource name/query or the cache's resource name reaches a client-facing sink — event names, resource-set keys, resource-response rids, hrefs (PROV/cid-taint, backward provenance over the whole program); ExpandCID is called on the service-facing side only and expands every tag; token resets re-authenticate only connections whose own tid is listed; events are fanned out to the subscriber set of the resource being handled (DOM/fanout-set); no subscriber-side store into the shared ResourceEvent, whatever the field (WHO/event-immutable). Not decided: what services put into payloads. Added after seeding round 7: the collector rules (PAIR/gc-countdown, DOM/gc-mark) serve this property too: a connection that released a resource on a reference cycle keeps no subscription to it and receives none of its events.",
 		Assumptions: baseAssumptions,
 		Rules: []Rule{
 			{Name: "DOM/gc-mark", Min: 1, Run: ruleGCMark, Doc: "the collector neither keeps released nor disposes still-held subscriptions of a connection"},
@@ -236,7 +236,7 @@ func init() {
 
 	register(&Property{
 		ID: "C11", Title: "Disconnect cleanup at any moment",
-		Explanation: "Decides: wsConn.dispose sets the flag and closes the worker channel in one critical section, removes the connection from the cache and from token-reset fan-out, unsubscribes the connection events, disposes every subscription, and leaves the registry (DOM/dispose); Subscription.Dispose releases references and exactly one cache use; Enqueue/Subscribe/Unsubscribe refuse a disposing connection; a late Loaded releases the cache use (PAIR/loaded-handover); late access answers are absorbed (DOM/verdict-store); no call/auth request is issued by a continuation of a disposed connection (CTX/post-dispose); a refused task never strands a throttle slot of other connections (PAIR/throttle-slot); temporary HTTP connections are disposed exactly once on every exit (LIN/temp-conn); sends on the worker channel cannot hit the close (CHAN); teardown takes the connection and cache mutexes in an order that cannot deadlock against the token-reset fan-out (LOCK/order). Not decided: 'no effect on other connections' as a runtime fact beyond the pairing rules of C09.",
+		Explanation: "Decides: wsConn.dispose sets the flag and closes the worker channel in one critical section, removes the connection from the cache and from token-reset fan-out, unsubscribes the connection events, disposes every subscription, and leaves the registry (DOM/dispose); Subscription.Dispose releases references and exactly one cache use; Enqueue/Subscribe/Unsubscribe refuse a disposing connection; a late Loaded releases the cache use (PAIR/loaded-handover); late access answers are absorbed (DOM/verdict-store); no call/auth request is issued by a continuation of a disposed connection (CTX/post-dispose); a refused task never strands a throttle slot of other connections (PAIR/throttle-slot); temporary HTTP connections are disposed exactly once on every exit (LIN/temp-conn); sends on the worker channel cannot hit the close (CHAN); teardown takes the connection and cache mutexes in an order that cannot deadlock against the token-reset fan-out (LOCK/order). Not decided: 'no effect on other connections' as a runtime fact beyond the pairing rules of C09. Added after seeding round 7: every service request reads the connection's token and is therefore confined to the connection's worker (CTX/conn), whose queue refuses tasks after the close; a named function that sends a call/auth request hands the dispose test to each closure calling it (CTX/post-dispose).",
 		Assumptions: baseAssumptions,
 		Rules: []Rule{
 			{Name: "CTX/conn", Min: 25, Run: ruleConfinement, Doc: "every service request on a connection's behalf reads its token and is therefore issued from that connection's worker (whose queue refuses tasks after the close) — never straight from a service-answer callback"},
@@ -288,7 +288,7 @@ func init() {
 
 	register(&Property{
 		ID: "C14", Title: "Subject hygiene and request validation",
-		Explanation: "Decides: at all 10 publish/subscribe sites the subject is assembled only from literal prefixes and values whose every provenance leaf (backward over the whole program: parameters through the call graph, fields through all their stores, decoders) is validated by IsValidRID/IsValidRIDPart on the path to its use, trusted (xid, constants) or one of the two service-addressed subjects; the query part of a resource id never reaches a subject (PROV/subject); the recognisers reject control characters, space, DEL, non-ASCII, '*', '>' (and '.', '?' for parts) on every path of a scan step (TABLE/reject-set, constant propagation per character); every subject is validated hence invalid input reaches no service request. Not decided: the recognisers on whole strings (token structure), PathToRID decoding of every byte string.",
+		Explanation: "Decides: at all 10 publish/subscribe sites the subject is assembled only from literal prefixes and values whose every provenance leaf (backward over the whole program: parameters through the call graph, fields through all their stores, decoders) is validated by IsValidRID/IsValidRIDPart on the path to its use, trusted (xid, constants) or one of the two service-addressed subjects; the query part of a resource id never reaches a subject (PROV/subject); the recognisers reject control characters, space, DEL, non-ASCII, '*', '>' (and '.', '?' for parts) on every path of a scan step (TABLE/reject-set, constant propagation per character); every subject is validated hence invalid input reaches no service request. Not decided: the recognisers on whole strings (token structure), PathToRID decoding of every byte string. Added after seeding round 7: the resource id is cut into name and query at its first '?', the position up to which the validator checks (TABLE/rid-split).",
 		Assumptions: baseAssumptions,
 		Rules: []Rule{
 			{Name: "TABLE/rid-split", Min: 1, Run: ruleRIDSplit, Doc: "the id is cut into name and query at its first '?', where the validator stops checking"},
@@ -320,7 +320,7 @@ func init() {
 
 	register(&Property{
 		ID: "C16", Title: "HTTP resources are a faithful, finite rendering of the resource graph",
-		Explanation: "Decides: in both encoders the expansion path is pushed and popped on every successful path, the cycle test and the error-leaf return precede the push, the recursive descent is guarded by the cycle test and the push, so the expansion terminates on cyclic graphs and later siblings are not cut (PAIR/enc-path); the subscription is handed to the renderer before its resources are released, so the rendering is of the graph as cached at response time and not of one that queued events have already changed (PAIR/rpc-resources); HEAD and GET take the same path and HEAD is tested nowhere else; the two encoders agree on the value kinds (TWIN/encode-value); resource responses set Location from the unexpanded rid (PROV/cid-taint clause of C10); every successful path of both encoders, for collections and models of 0, 1 and 2 elements, emits exactly one well-formed JSON value skeleton, and every non-literal write is JSON by construction — json.Marshal, a json.RawMessage from the decoder, an encoded error (PAIR/emit). Not decided — the core: equality of the rendering with the recursive expansion for every graph; JSON well-formedness beyond the guarded structure; RIDToPath/PathToRID as inverse maps.",
+		Explanation: "Decides: in both encoders the expansion path is pushed and popped on every successful path, the cycle test and the error-leaf return precede the push, the recursive descent is guarded by the cycle test and the push, so the expansion terminates on cyclic graphs and later siblings are not cut (PAIR/enc-path); the subscription is handed to the renderer before its resources are released, so the rendering is of the graph as cached at response time and not of one that queued events have already changed (PAIR/rpc-resources); HEAD and GET take the same path and HEAD is tested nowhere else; the two encoders agree on the value kinds (TWIN/encode-value); resource responses set Location from the unexpanded rid (PROV/cid-taint clause of C10); every successful path of both encoders, for collections and models of 0, 1 and 2 elements, emits exactly one well-formed JSON value skeleton, and every non-literal write is JSON by construction — json.Marshal, a json.RawMessage from the decoder, an encoded error (PAIR/emit). Not decided — the core: equality of the rendering with the recursive expansion for every graph; JSON well-formedness beyond the guarded structure; RIDToPath/PathToRID as inverse maps. Added after seeding round 7: cached model/collection values already handed to subscriptions are never written in place, so a pending GET renders a state the cache actually had (DOM/copy-on-write).",
 		Assumptions: baseAssumptions,
 		Rules: []Rule{
 			{Name: "DOM/copy-on-write", Min: 1, Run: ruleCopyOnWrite, Doc: "the content a pending GET renders is the cached state of some moment: cached model/collection values already handed to subscriptions are never written in place"},
@@ -335,7 +335,7 @@ func init() {
 
 	register(&Property{
 		ID: "C17", Title: "HTTP status mapping, service meta limits and CORS allow-list",
-		Explanation: "Decides completely the finite tables: errorStatus maps each code of the property's table (and five other codes) to the stated status, by constant propagation with the code fixed (TABLE/errorStatus); IsDirectResponseStatus and IsValidStatus are true exactly within 300..599, with the nil cases (TABLE/status-interval); MergeHeader never copies the five protected keys, each canonical, appends Set-Cookie and replaces other keys (TABLE/protected); every meta a decoder hands out was canonicalised (DOM/canonicalize); on a direct-response status no further service request is issued and no data is handed out (DOM/gates); the origin check precedes header auth and every service request (DOM/origin); the error-to-status table is closed: every code errorStatus tells apart, and any other, maps to the listed status or 400 (TABLE/errorStatus). Not decided: matchesOrigins for all strings, net/http and gorilla behaviour.",
+		Explanation: "Decides completely the finite tables: errorStatus maps each code of the property's table (and five other codes) to the stated status, by constant propagation with the code fixed (TABLE/errorStatus); IsDirectResponseStatus and IsValidStatus are true exactly within 300..599, with the nil cases (TABLE/status-interval); MergeHeader never copies the five protected keys, each canonical, appends Set-Cookie and replaces other keys (TABLE/protected); every meta a decoder hands out was canonicalised (DOM/canonicalize); on a direct-response status no further service request is issued and no data is handed out (DOM/gates); the origin check precedes header auth and every service request (DOM/origin); the error-to-status table is closed: every code errorStatus tells apart, and any other, maps to the listed status or 400 (TABLE/errorStatus). Not decided: matchesOrigins for all strings, net/http and gorilla behaviour. Added after seeding round 7: an error is replaced by methodNotAllowed only on paths that excluded GET, HEAD and POST, so methodNotFound keeps its 404 there (TABLE/method-rewrite).",
 		Assumptions: baseAssumptions,
 		Rules: []Rule{
 			{Name: "TABLE/method-rewrite", Min: 2, Run: ruleMethodRewrite, Doc: "an error is replaced by methodNotAllowed only for request methods other than GET, HEAD, POST (methodNotFound keeps its 404 there)"},
@@ -351,7 +351,7 @@ func init() {
 
 	register(&Property{
 		ID: "C18", Title: "Messaging adapter contract: one completion per request, ordered events",
-		Explanation: "Decides for nats/nats.go: every path of SendRequest consumes the completion exactly once (three immediate-error goroutines or the pending entry) (LIN/sendrequest); every invocation of a request completion is preceded by the removal of its pending entry in the critical section of the lookup, a pre-response removes and completes nothing, event callbacks are invoked synchronously in publish order (PATHS/remove-before-invoke); the subject length is checked against the control-line limit before ChanSubscribe/PublishRequest; NoReconnect and the closed handler are installed, one listener goroutine; no deferred closure captures the listener's loop variable (DOM/loopvar); the only method called on a nats.go subscription is Unsubscribe — no delivery limit that a pre-response could use up (DOM/nats-plumbing). Not decided: timing of timeouts and their restart, disconnect detection by nats.go.",
+		Explanation: "Decides for nats/nats.go: every path of SendRequest consumes the completion exactly once (three immediate-error goroutines or the pending entry) (LIN/sendrequest); every invocation of a request completion is preceded by the removal of its pending entry in the critical section of the lookup, a pre-response removes and completes nothing, event callbacks are invoked synchronously in publish order (PATHS/remove-before-invoke); the subject length is checked against the control-line limit before ChanSubscribe/PublishRequest; NoReconnect and the closed handler are installed, one listener goroutine; no deferred closure captures the listener's loop variable (DOM/loopvar); the only method called on a nats.go subscription is Unsubscribe — no delivery limit that a pre-response could use up (DOM/nats-plumbing). Not decided: timing of timeouts and their restart, disconnect detection by nats.go. Added after seeding round 7: whoever removes a found pending request from the map completes it on every path (PATHS/remove-before-invoke).",
 		Assumptions: append([]string{"nats.go delivers at most what was published; timerqueue fires each entry at most once"}, baseAssumptions...),
 		Rules: []Rule{
 			{Name: "CTX/async-completion", Min: 1, Run: ruleAsyncCompletion, Doc: "the completion of a request never runs on the sender's stack (senders hold their own mutex)"},
@@ -367,7 +367,7 @@ func init() {
 
 	register(&Property{
 		ID: "C19", Title: "Throttles bound outstanding requests and never stall",
-		Explanation: "Decides: running++ only below the limit under the throttle mutex, Done on every non-panic path either decrements or hands the slot to the head of the queue, FIFO (DOM/throttle, FIFO/queues) — so running <= limit is inductive and no slot is lost; each governed closure calls Done exactly once on every continuation path and outside any task the connection may refuse (PAIR/throttle-slot); no zero-limit throttle is created (DOM/limit-positive); throttled and unthrottled twins agree (covered by the same path rules on both); a subscription keeps the throttle of the tree it was loaded in until it is disposed or its loading failed (WHO/throttle). Not decided: the number of outstanding requests as a runtime quantity; global progress under arbitrary answer orders beyond 'every completion frees or hands over exactly one slot'.",
+		Explanation: "Decides: running++ only below the limit under the throttle mutex, Done on every non-panic path either decrements or hands the slot to the head of the queue, FIFO (DOM/throttle, FIFO/queues) — so running <= limit is inductive and no slot is lost; each governed closure calls Done exactly once on every continuation path and outside any task the connection may refuse (PAIR/throttle-slot); no zero-limit throttle is created (DOM/limit-positive); throttled and unthrottled twins agree (covered by the same path rules on both); a subscription keeps the throttle of the tree it was loaded in until it is disposed or its loading failed (WHO/throttle). Not decided: the number of outstanding requests as a runtime quantity; global progress under arbitrary answer orders beyond 'every completion frees or hands over exactly one slot'. Added after seeding round 7: every combinator between Throttle.Add and the Done of a governed request invokes its continuation on every path — also for a disposing connection (PAIR/throttle-slot, strict hops).",
 		Assumptions: append([]string{"C18: each governed request completes"}, baseAssumptions...),
 		Rules: []Rule{
 			{Name: "DOM/drain-reentrancy", Min: 2, Run: ruleDrainReentrancy, Doc: "a deferred check released from inside an access callback finds the in-flight flag cleared and is sent"},
@@ -385,7 +385,7 @@ func init() {
 
 	register(&Property{
 		ID: "C20", Title: "Fail-stop on messaging loss or Stop, with all clients disconnected",
-		Explanation: "Decides: Stop runs metrics, sockets, HTTP, messaging in this order on the one path that is not a repeated Stop, sets stopping under the mutex first and reports the cause on the stop channel last; the messaging client is closed with a bounded wait before the cache stops; Cache.Stop closes the worker channel, clears pending evictions and resets started; no connection is created or registered once stopped or stopping; loss of the messaging connection stops the service with the cause (DOM/stop); sends on inCh cannot hit the close (CHAN: known finding F5); a connection reports itself done to Stop (wg.Done) only after it released its cache and messaging resources (DOM/dispose). Not decided: that sockets are closed within the timeouts, net/http shutdown, 'never serves from a stale cache' as a runtime fact.",
+		Explanation: "Decides: Stop runs metrics, sockets, HTTP, messaging in this order on the one path that is not a repeated Stop, sets stopping under the mutex first and reports the cause on the stop channel last; the messaging client is closed with a bounded wait before the cache stops; Cache.Stop closes the worker channel, clears pending evictions and resets started; no connection is created or registered once stopped or stopping; loss of the messaging connection stops the service with the cause (DOM/stop); sends on inCh cannot hit the close (CHAN: known finding F5); a connection reports itself done to Stop (wg.Done) only after it released its cache and messaging resources (DOM/dispose). Not decided: that sockets are closed within the timeouts, net/http shutdown, 'never serves from a stale cache' as a runtime fact. Added after seeding round 7: no mutex is re-acquired while held, directly or by a task the holder waits for (LOCK/order with synchronous hand-offs): Stop cannot deadlock on its own lock.",
 		Assumptions: baseAssumptions,
 		Rules: []Rule{
 			{Name: "LOCK/order", Min: 2, Run: ruleLockOrder, Doc: "Stop completes: no lock is re-acquired, directly or by a task it waits for, while it is held (mutex acquisition graph acyclic, synchronous hand-offs included)"},
